@@ -1,5 +1,6 @@
 import Hive.Proofs.WorkerPoolLockOrder
 import Hive.Gen.C16_Skel
+import Hive.Gen.C16_Calls
 /-!
 # C16 — lock-script obligations over the regenerated skeletons
 
@@ -262,6 +263,104 @@ theorem C16_lockscript_abba_deadlock_witness :
     have := canStep_of_step _ _ hstep
     revert this
     decide +kernel
+
+
+/-! ## The call graph of the lock scripts is complete (regenerated: `Hive/Gen/C16_Calls.lean`)
+
+`extract-sync` reports only the calls it was told to look for; a new helper method that takes the pool lock and is called
+under it would be invisible to the skeletons — and to the lock scripts.  `harness/c16/callgraph` therefore lists EVERY
+call of EVERY function of `workerpool.go` and `task.go`; here the lists are pinned, and every call of a method on the
+receiver (`w.m`, `t.m`, `element.m`, `task.m`) or on the pool's queue / counter (`w.Queue.m`, `w.PendingTasksCounter.m`)
+is shown to be a function that the lock scripts know and inline. -/
+open Hive.Gen.C16Calls in
+def allCalls : List (String × List String) :=
+  [
+   ("New", calls_New),
+   ("WorkerPool_Start", calls_WorkerPool_Start),
+   ("WorkerPool_startIfStopped", calls_WorkerPool_startIfStopped),
+   ("WorkerPool_Submit", calls_WorkerPool_Submit),
+   ("WorkerPool_DebounceFunc", calls_WorkerPool_DebounceFunc),
+   ("WorkerPool_IsRunning", calls_WorkerPool_IsRunning),
+   ("WorkerPool_WorkerCount", calls_WorkerPool_WorkerCount),
+   ("WorkerPool_Shutdown", calls_WorkerPool_Shutdown),
+   ("WorkerPool_stop", calls_WorkerPool_stop),
+   ("WorkerPool_increasePendingTasksIfRunning", calls_WorkerPool_increasePendingTasksIfRunning),
+   ("WorkerPool_decreasePendingTasks", calls_WorkerPool_decreasePendingTasks),
+   ("WorkerPool_hasWork", calls_WorkerPool_hasWork),
+   ("WorkerPool_startDispatcher", calls_WorkerPool_startDispatcher),
+   ("WorkerPool_dispatcher", calls_WorkerPool_dispatcher),
+   ("WorkerPool_startWorkers", calls_WorkerPool_startWorkers),
+   ("WorkerPool_worker", calls_WorkerPool_worker),
+   ("WorkerPool_workerReadLoop", calls_WorkerPool_workerReadLoop),
+   ("WorkerPool_handleShutdown", calls_WorkerPool_handleShutdown),
+   ("WithWorkerCount", calls_WithWorkerCount),
+   ("WithPanicOnSubmitAfterShutdown", calls_WithPanicOnSubmitAfterShutdown),
+   ("WithCancelPendingTasksOnShutdown", calls_WithCancelPendingTasksOnShutdown),
+   ("newTask", calls_newTask),
+   ("Task_run", calls_Task_run),
+   ("Task_markDone", calls_Task_markDone),
+   ("Task_detectDeadlock", calls_Task_detectDeadlock)
+  ]
+
+/-- **Regenerated obligation**: every call of every function of `workerpool.go` / `task.go`, pinned. -/
+theorem C16_calls_pinned : allCalls =
+  [
+   ("New", ["make", "options.Apply", "runtime.NumCPU", "syncutils.NewCounter", "syncutils.NewStack[*Task]"]),
+   ("WorkerPool_Start", ["verifStartWindow", "w.ShutdownComplete.Wait", "w.startIfStopped"]),
+   ("WorkerPool_startIfStopped", ["w.liveWorkers.Load", "w.mutex.Lock", "w.mutex.Unlock", "w.startDispatcher", "w.startWorkers"]),
+   ("WorkerPool_Submit", ["fmt.Sprintf", "lo.First", "newTask", "panic", "verifSubmitWindow", "w.Queue.Push", "w.increasePendingTasksIfRunning"]),
+   ("WorkerPool_DebounceFunc", ["execMutex.Lock", "execMutex.Unlock", "lastInvocation.Add", "lastInvocation.Load", "w.Submit", "workerFunc"]),
+   ("WorkerPool_IsRunning", ["w.mutex.RLock", "w.mutex.RUnlock"]),
+   ("WorkerPool_WorkerCount", []),
+   ("WorkerPool_Shutdown", ["w.Queue.SignalShutdown", "w.stop"]),
+   ("WorkerPool_stop", ["w.mutex.Lock", "w.mutex.Unlock"]),
+   ("WorkerPool_increasePendingTasksIfRunning", ["w.PendingTasksCounter.Increase", "w.mutex.RLock", "w.mutex.RUnlock"]),
+   ("WorkerPool_decreasePendingTasks", ["w.PendingTasksCounter.Decrease", "w.Queue.SignalShutdown"]),
+   ("WorkerPool_hasWork", ["verifHasWorkGap", "w.IsRunning", "w.PendingTasksCounter.Get"]),
+   ("WorkerPool_startDispatcher", ["make", "w.dispatcher"]),
+   ("WorkerPool_dispatcher", ["close", "w.Queue.PopOrWait", "w.hasWork"]),
+   ("WorkerPool_startWorkers", ["w.ShutdownComplete.Add", "w.liveWorkers.Add", "w.worker"]),
+   ("WorkerPool_worker", ["w.ShutdownComplete.Done", "w.handleShutdown", "w.liveWorkers.Add", "w.workerReadLoop"]),
+   ("WorkerPool_workerReadLoop", ["element.run"]),
+   ("WorkerPool_handleShutdown", ["task.markDone", "task.run"]),
+   ("WithWorkerCount", []),
+   ("WithPanicOnSubmitAfterShutdown", []),
+   ("WithCancelPendingTasksOnShutdown", []),
+   ("newTask", ["debug.ClosureStackTrace", "debug.GetEnabled", "make"]),
+   ("Task_run", ["debug.GetEnabled", "t.detectDeadlock", "t.markDone", "t.workerFunc"]),
+   ("Task_markDone", ["close", "t.doneCallback"]),
+   ("Task_detectDeadlock", ["debug.DeadlockDetectionTimeout.String", "fmt.Println", "strings.Replace", "time.NewTimer", "timeutil.CleanupTimer"])
+  ] := by decide
+
+/-- **Regenerated obligation**: the functions declared in the two files — a new function breaks this pin. -/
+theorem C16_calls_declared :
+    Hive.Gen.C16Calls.declared.all (fun n => (allCalls.map (·.1)).contains n) = true ∧
+    Hive.Gen.C16Calls.declared.length = allCalls.length := by decide
+
+/-- Function-typed fields (`workerFunc`: the task, user code; `doneCallback`: bound to `decreasePendingTasks`, see
+`env.bound`) and the debug goroutine `detectDeadlock` (started with `go`, calls nothing of the pool: `C16_calls_pinned`). -/
+def notInlined : List Str := [s "workerFunc", s "doneCallback", s "detectDeadlock"]
+
+/-- One callee is covered by the lock scripts' table. -/
+def calleeKnown (c : Str) : Bool :=
+  match dropPrefix (s "w.Queue.") c with
+  | some m => !m.contains '.' && (env.find (s "Stack") m).isSome
+  | none =>
+  match dropPrefix (s "w.PendingTasksCounter.") c with
+  | some m => !m.contains '.' && (env.find (s "Counter") m).isSome
+  | none =>
+    let (v, m) := splitFirstDot c
+    if m.isEmpty || m.contains '.' then true          -- a plain function, or a deeper path (mutexes, WaitGroup, atomics: primitives)
+    else if v = s "w" then (env.find (s "WorkerPool") m).isSome
+    else if v = s "t" || v = s "element" || v = s "task" then (env.find (s "Task") m).isSome || notInlined.contains m
+    else true
+
+/-- **The lock scripts know every function that is called.**  Every method call on the receiver, on a task, on the pool's
+queue or on its pending counter made anywhere in `workerpool.go` / `task.go` is a call of a function in the lock scripts'
+table (whose regenerated skeleton is inlined at that point) — so "nothing called under `w.mutex` takes it again"
+(`C16_lockscript_no_reentry`) is a statement about ALL the code these functions reach, not only about the calls the
+skeleton extractor was asked to report. -/
+theorem C16_calls_closed : allCalls.all (fun f => f.2.all (fun c => calleeKnown (s c))) = true := by decide +kernel
 
 /-! ## Witnesses: the scan finds the historical and the seeded defects -/
 
